@@ -21,7 +21,7 @@ ACCEPTS = {
 
 
 def gen_quanti(rng, n, pnan, style=None):
-    style = style or rng.choice(['levels', 'levels', 'jitter', 'close', 'big', 'tiny', 'uniform', 'spike', 'int'])
+    style = style or rng.choice(['levels', 'levels', 'jitter', 'close', 'big', 'tiny', 'uniform', 'spike', 'int', 'ulp'])
     nlev = rng.randint(2, 7)
     lv = [rng.randrange(nlev) for _ in range(n)]
     if style == 'levels':
@@ -34,6 +34,13 @@ def gen_quanti(rng, n, pnan, style=None):
         vals = [202301.0 + x for x in lv]
     elif style == 'big':
         vals = [1e15 + 2.0 * x for x in lv]
+    elif style == 'ulp':        # consecutive representable doubles
+        import numpy as np
+        base = rng.choice([1.0, 1000.0, 0.1])
+        steps = [base]
+        for _ in range(nlev):
+            steps.append(float(np.nextafter(steps[-1], np.inf)))
+        vals = [steps[x] for x in lv]
     elif style == 'tiny':
         vals = [1e-9 * (x + 1) for x in lv]
     elif style == 'spike':
@@ -137,6 +144,11 @@ def random_object_spec(rng, cls=None, n=None, nfeat=None, degenerate=False):
                 d['values'] = ['u%d' % i for i in range(n)]
             elif mode == 'rare' and kind == 'quanti':
                 d['values'] = [float(i % 17) for i in range(n)]
+            elif mode in ('unique', 'rare') and kind == 'ordinal':
+                # many equally frequent ranked levels: every modality rarer than min_freq
+                lv12 = ['m%02d' % i for i in range(12)]
+                d['values'] = [lv12[i % 12] for i in range(n)]
+                d['order'] = lv12
             elif mode == 'one_plus_nan' and kind != 'ordinal':
                 d['values'] = [(None if i % 3 == 0 else (2.0 if kind == 'quanti' else 'k')) for i in range(n)]
         feats[f'{kind[0]}{j}'] = d
@@ -263,8 +275,13 @@ def hist_c04(seed, cls=None):
     h = _new('c04', seed, spec)
     if not h.fit(1, o, X, y, kw):
         return h
+    # observers must not disturb the mapping: summary() / summary(feature) / history() before transforming
+    if rng.random() < 0.5 and h.objs[1].features:
+        h.summary(1, rng.choice([None] + list(h.objs[1].features)))
     t1 = h.transform(1, X.copy(deep=True), seen=True, label='train')
     if h.reload(1, 2):
+        if rng.random() < 0.5 and h.objs[2].features:
+            h.summary(2, rng.choice(list(h.objs[2].features)))
         h.transform(2, X.copy(deep=True), seen=True, same_as=t1, same_clause='C06_behaviour', label='train_reloaded')
     return h
 
@@ -285,6 +302,8 @@ def hist_c06(seed, cls=None):
     rng = random.Random(seed)
     spec = random_object_spec(rng, cls or rng.choice(['BinaryCarver', 'ContinuousCarver', 'MulticlassCarver', 'Discretizer',
                                                       'QualitativeDiscretizer', 'QuantitativeDiscretizer', 'BinaryCarver']))
+    if rng.random() < 0.25 and any(d['kind'] == 'quanti' for d in spec['features'].values()):
+        spec['float_dtype'] = 'float32'
     o, X, y, kw = E.build(spec)
     h = _new('c06', seed, spec)
     if not h.fit(1, o, X, y, kw):
@@ -294,9 +313,16 @@ def hist_c06(seed, cls=None):
     if not h.reload(1, 2):
         return h
     frames = [('train', X.copy(deep=True))] + probe_frames(rng, h.objs[1], X, spec, count=3)
+    if spec.get('float_dtype') == 'float32':
+        # the same training values held as float64 (a frame read back from another source)
+        wide = X.copy(deep=True)
+        for c in wide.columns:
+            if str(wide[c].dtype) == 'float32':
+                wide[c] = wide[c].astype('float64')
+        frames.append(('train_as_float64', wide))
     for label, fr in frames:
-        t1 = h.transform(1, fr.copy(deep=True), seen=(label == 'train'), label=label)
-        h.transform(2, fr.copy(deep=True), seen=(label == 'train'), same_as=t1, same_clause='C06_behaviour', label=label + '_reloaded')
+        t1 = h.transform(1, fr.copy(deep=True), seen=label.startswith('train'), label=label)
+        h.transform(2, fr.copy(deep=True), seen=label.startswith('train'), same_as=t1, same_clause='C06_behaviour', label=label + '_reloaded')
     return h
 
 
@@ -339,9 +365,13 @@ def hist_c16(seed, cls=None):
     if not h.fit(1, o, X, y, kw):
         return h
     h.transform(1, X.copy(deep=True), seen=True, label='train')
+    if rng.random() < 0.35:
+        _random_edits(rng, h, 1, X, n_edits=1)
     h.summary(1)
     for f in list(h.objs[1].features):
         h.summary(1, f)
+    if rng.random() < 0.5:
+        h.transform(1, X.copy(deep=True), seen=True, label='train_after_summary')
     if rng.random() < 0.5 and h.reload(1, 2):
         h.summary(2)
     return h
@@ -608,6 +638,12 @@ def hist_c03(seed, cls=None):
     h.transform(1, X.copy(deep=True), seen=True, label='train')
     if h.objs[1].features:
         h.transform(1, sorted_probe_frame(rng, h.objs[1], X), seen=False, label='sweep')
+        # the same rows under a shuffled integer index and with missing cells: order must not depend on the index
+        fr = X.copy(deep=True)
+        ids = list(range(len(fr)))
+        rng.shuffle(ids)
+        fr.index = ids
+        h.transform(1, fr, seen=True, label='train_shuffled_index')
     if rng.random() < 0.3 and h.reload(1, 2) and h.objs[2].features:
         h.transform(2, sorted_probe_frame(rng, h.objs[2], X), seen=False, label='sweep_reloaded')
     return h
